@@ -10,6 +10,7 @@ import SnesVerif.Rom.BusIO
 import SnesVerif.Rom.Header
 import SnesVerif.Asm.Model
 import SnesVerif.Cpu.Impl
+import SnesVerif.Cpu.InterruptModel
 import SnesVerif.System.RunUntil
 import SnesVerif.Cpu.Abs
 import SnesVerif.Cpu.Disasm
@@ -418,6 +419,44 @@ def run (ws : List String) : String :=
     | _, _, _ => "bad-op"
   | _ => "bad-op"
 
+/-- `cpui <p|a> <latch> <steps> <19 register fields> <seed> <ovl>`: as `cpu`, the first `Step()` taken with the given value
+of the interrupt latch (`Cpu.stepFull`), the later ones with the latch idle -/
+def runI (ws : List String) : String :=
+  match ws with
+  | v :: l :: n :: rest =>
+    if rest.length != 21 then "bad-op" else
+    match parseRegs (rest.take 19), hexNat? (rest.getD 19 ""), hexNat? n, hexNat? l with
+    | some r, some seed, some n, some l =>
+      let ovl := parseOvl (rest.getD 20 "-")
+      let base : Nat → U8 := fun a => match ovl.find? (·.1 == a) with
+        | some (_, x) => BitVec.ofNat 8 x
+        | none => BitVec.ofNat 8 (hash8 seed.toUInt64 a.toUInt32).toNat
+      let variant := if v == "a" then Variant.alt else Variant.primary
+      let rec go (k : Nat) (first : Bool) (s : St) (acc : List String) : List String :=
+        match k with
+        | 0 => acc.reverse
+        | k + 1 =>
+          match (if first then stepFull variant l s else step variant s) with
+          | none => ("crash" :: acc).reverse
+          | some (_, s') => go k false s' ((canon s'.r ++ "|" ++ writesStr s'.m) :: acc)
+      ";".intercalate (go n true ⟨r, ⟨base, []⟩⟩ [])
+    | _, _, _, _ => "bad-op"
+  | _ => "bad-op"
+
+/-- `cpureset <19 register fields> <seed> <ovl>`: the state after `Reset()` -/
+def runReset (ws : List String) : String :=
+  if ws.length != 21 then "bad-op" else
+  match parseRegs (ws.take 19), hexNat? (ws.getD 19 "") with
+  | some r, some seed =>
+    let ovl := parseOvl (ws.getD 20 "-")
+    let base : Nat → U8 := fun a => match ovl.find? (·.1 == a) with
+      | some (_, x) => BitVec.ofNat 8 x
+      | none => BitVec.ofNat 8 (hash8 seed.toUInt64 a.toUInt32).toNat
+    match reset ⟨r, ⟨base, []⟩⟩ with
+    | none => "crash"
+    | some (_, s') => canon s'.r ++ "|" ++ writesStr s'.m
+  | _, _ => "bad-op"
+
 def archCanon (a : WDC.Arch) : String :=
   s!"{toHex a.PC.toNat} {toHex a.S.toNat} {toHex a.A.toNat} {toHex a.X.toNat} {toHex a.Y.toNat} {toHex a.D.toNat} " ++
   s!"{toHex a.DBR.toNat} {toHex a.PBR.toNat} " ++
@@ -490,6 +529,8 @@ def handle (line : String) : String :=
   if line.startsWith "runu " then CpuDrv.runUntil (((line.drop 5).toString.splitOn " ").filter (· ≠ "")) else
   if line.startsWith "trace " then CpuDrv.trace (((line.drop 6).toString.splitOn " ").filter (· ≠ "")) else
   if line.startsWith "spec " then CpuDrv.spec (((line.drop 5).toString.splitOn " ").filter (· ≠ "")) else
+  if line.startsWith "cpui " then CpuDrv.runI (((line.drop 5).toString.splitOn " ").filter (· ≠ "")) else
+  if line.startsWith "cpureset " then CpuDrv.runReset (((line.drop 9).toString.splitOn " ").filter (· ≠ "")) else
   if line.startsWith "cpu " then CpuDrv.run (((line.drop 4).toString.splitOn " ").filter (· ≠ "")) else
   if line.startsWith "enc " then AsmDrv.enc (((line.drop 4).toString.splitOn " ").filter (· ≠ "")) else
   if line.startsWith "asm " then
